@@ -60,6 +60,27 @@ def search(chk, broken):
                                         {'op': 'rows', 'bc': bc, 'mv_fps': mv, 'wind_mph': wv, 'range_ft': R,
                                          'python': f'from py_ballisticcalc import *; len(Calculator().fire(Shot(Weapon(2,0), Ammo(DragModel({bc!r}, TableG7), Unit.FPS({mv!r})), '
                                                    f'winds=[Wind(Unit.MPH({wv!r}), Unit.Degree(0))]), Unit.Foot({R!r}), Unit.Foot({R / 10!r})).trajectory)'}))
+    # round METRIC ranges with the default step under tail winds: the accumulated record distance (ten additions of range/10 in feet)
+    # may round one ulp above the range, and a tail wind lengthens the steps over the ground - the row AT the range must still be there
+    calc0 = pbc.Calculator()
+    for it in range(60 if (chk.tier == 'quick' and not broken) else 1500):
+        if chk.over():
+            break
+        Rm = rng.choice([150.0, 300.0, 450.0, 150.0, 750.0, rng.choice([50.0, 100.0, 200.0, 250.0, 350.0, 600.0])])
+        wv = rng.uniform(5, 25)
+        shot = pbc.Shot(pbc.Weapon(U.Inch(2), 0), pbc.Ammo(pbc.DragModel(rng.uniform(0.1, 0.5), pbc.TableG7), U.MPS(rng.uniform(280, 900))),
+                        winds=[pbc.Wind(U.MPS(wv), U.Degree(rng.choice([0.0, 0.0, rng.uniform(-30, 30)])))])
+        try:
+            rows = calc0.fire(shot, U.Meter(Rm), 0 if rng.random() < 0.7 else U.Meter(Rm / 10)).trajectory
+        except pbc.RangeError:
+            continue
+        evals += 1
+        last = rows[-1].distance >> U.Meter
+        if len(rows) < 11 or abs((rows[10].distance >> U.Meter) - Rm) > 1e-9 * Rm:
+            chk.failures.append(Failure('missing-row:tail-wind', f'range {Rm} m, default step, tail wind {wv:.1f} m/s: {len(rows)} rows, the last one at {last:.6f} m - the row at the '
+                                                                 f'requested range is missing',
+                                        {'op': 'rows-metric', 'range_m': Rm, 'tail_wind_mps': wv, 'mv_mps': shot.ammo.mv >> U.MPS, 'bc': shot.ammo.dm.BC, 'rows': len(rows)}))
+            break
     for it in range(n):
         if chk.over():
             break
